@@ -64,7 +64,23 @@ func Views(thorough bool) check.Family {
 	return check.Family{Name: "l2-views", Cases: spec.L2Views(thorough), PerService: 1, PerDesign: 1}
 }
 
+// StressAttrs / StressNames are the identifier-stress families (C01 only: compile, not executed).
+func StressAttrs(thorough bool) check.Family {
+	return check.Family{Name: "l3-stress-attrs-" + tierName(thorough), Cases: spec.L3StressAttrs(thorough), CompileOnly: true}
+}
+
+// StressNames puts stress names in method/type/view/error/alias positions.
+func StressNames(thorough bool) check.Family {
+	return check.Family{Name: "l3-stress-names-" + tierName(thorough), Cases: spec.L3StressNames(thorough), PerService: 1, PerDesign: 1, CompileOnly: true}
+}
+
+// Features are structural features (verbs, routes, wildcards, body forms, content types,
+// multipart, skip-encode, streaming).
+func Features() check.Family {
+	return check.Family{Name: "l2-features", Cases: spec.L2Features(), PerService: 4, CompileOnly: true}
+}
+
 // All lists every family (C01, C07, C09 run over all of them).
 func All(thorough bool) []check.Family {
-	return []check.Family{PayloadSingle(), PayloadPair(thorough), ResultSingle(), ResultPair(thorough), ResultStatus(), PayloadValidation(thorough), ResultValidation(thorough), Errors(), Security(thorough), Views(thorough)}
+	return []check.Family{PayloadSingle(), PayloadPair(thorough), ResultSingle(), ResultPair(thorough), ResultStatus(), PayloadValidation(thorough), ResultValidation(thorough), Errors(), Security(thorough), Views(thorough), Features(), StressAttrs(thorough), StressNames(thorough)}
 }
